@@ -134,6 +134,7 @@ def gen_common_opts(rng, objs, allow_transpose=True):
     o = dict(OPT_DEFAULTS)
     o["df"] = rng.choice([None, None, None, "same", "shuffled", "modified", "subset", "plain", "counts"])
     o["df_seed"] = rng.randrange(1000)
+    o["df_on_empty"] = o["df"] is not None and rng.random() < 0.3
     o["transpose"] = allow_transpose and rng.random() < 0.5
     o["pre_plot"] = allow_transpose and rng.random() < 0.25
     o["cbar"] = rng.random() < 0.25
@@ -533,8 +534,13 @@ def run_impl(case):
     archive = build_archive(case)
     df = make_df(archive, case["opts"])
     r = {"archive": archive, "geom": geometry_of(archive), "listing": listing_of_archive(archive), "frame": listing_of_df(df)}
+    if case["opts"].get("df_on_empty") and df is not None and case["kind"] in ("grid", "cvt"):
+        # the frame was saved earlier; the archive handed over only carries the geometry (it is empty now, e.g. cleared or freshly built)
+        archive = build_archive(dict(case, adds=[]))
+        r["archive"], r["geom"], r["listing"] = archive, geometry_of(archive), listing_of_archive(archive)
     before = raw_snapshot(archive, df)
     fig, ax = plt.subplots()
+    plt.subplots(figsize=(2, 2))      # pyplot's CURRENT figure / axes are now another one: everything has to be drawn on the axes that was passed
     try:
         with warnings.catch_warnings():
             warnings.simplefilter("ignore")
